@@ -128,4 +128,12 @@ def run(chk, cname, checker, names=None, prefix=None, backend="structural", kind
             chk.ob(oname, None, backend, kind, detail=detail)
         else:
             raise RuntimeError(f"checker error in {oname}:\n{detail}")
+    # vacuity: a catalogue entry that the compiler rejects for every shape vector checks nothing (a misspelt schema looks exactly like
+    # this); entries that are meant to be rejected say so (`rejected=True`)
+    by_entry = {}
+    for ename, sv, status, detail, wit in results:
+        by_entry.setdefault(ename, []).append(status)
+    dead = sorted(n for n, sts in by_entry.items() if all(x == "hy-error" for x in sts) and not getattr(catalog.ENTRIES[n], "rejected", False))
+    chk.ob(f"{prefix or cname}/vacuity: every rule schema is accepted by the compiler for at least one shape vector", not dead, backend, "proved",
+           detail=None if not dead else "rejected for every shape vector: " + ", ".join(dead))
     return results
